@@ -67,17 +67,21 @@ class Canon(ast.NodeTransformer):
     def visit_If(self, n):
         self.generic_visit(n)
         if n.orelse and not (len(n.orelse) == 1 and
-                             isinstance(n.orelse[0], ast.If)) and \
-                is_negative(n.test):
-            return ast.copy_location(
-                ast.If(negate(n.test), n.orelse, n.body), n)
+                             isinstance(n.orelse[0], ast.If)):
+            test, body, orelse = n.test, n.body, n.orelse
+            while is_negative(test):
+                test, body, orelse = negate(test), orelse, body
+            if test is not n.test:
+                return ast.copy_location(ast.If(test, body, orelse), n)
         return n
 
     def visit_IfExp(self, n):
         self.generic_visit(n)
-        if is_negative(n.test):
-            return ast.copy_location(
-                ast.IfExp(negate(n.test), n.orelse, n.body), n)
+        test, body, orelse = n.test, n.body, n.orelse
+        while is_negative(test):
+            test, body, orelse = negate(test), orelse, body
+        if test is not n.test:
+            return ast.copy_location(ast.IfExp(test, body, orelse), n)
         return n
 
 
